@@ -27,16 +27,35 @@ def selector(kinds, tier, seed, op, forms):
 def step_unit(plan):
     src = read_repo("src/interpreter/src/interpreter.rs")
     sig, body = extract_fn(src, "step")
-    # anchor check of the non-profiling whole-plan branch: for _ in 0..step_count { for (idx, fxn) in plan_brrw.iter_mut().enumerate() { .. fxn.solve(); .. } }
-    m = re.search(r"\}\s*else\s*\{\s*for _ in 0\.\.step_count\s*\{\s*for \(idx, fxn\) in plan_brrw\.iter_mut\(\)\.enumerate\(\)\s*\{", body)
-    if not m:
-        raise AnchorLost("step(): whole-plan loop `for _ in 0..step_count { for (idx, fxn) in plan_brrw.iter_mut().enumerate()` not found")
-    i = body.index("{", m.end() - 1)
-    inner_end = vlib.match_brace(body, m.end() - 1)
-    inner = body[m.end():inner_end - 1]
+    # the non-profiling whole-plan branch: `if step_id == 0 { if self.profile { .. } else { <HERE> } }`.
+    # Its loop nest is read off the code and transcribed IN THE ORDER FOUND (so an interchange of the two loops is
+    # a failing obligation, not a lost anchor).
+    m0 = vlib.find_code(body, r"if\s+step_id\s*==\s*0\s*\{")
+    if not m0:
+        raise AnchorLost("step(): `if step_id == 0` not found")
+    blk = body[m0.end() - 1:vlib.match_brace(body, m0.end() - 1)]
+    me = vlib.find_code(blk, r"\}\s*else\s*\{")
+    if not me:
+        raise AnchorLost("step(): non-profiling `else` branch not found")
+    els = blk[me.end() - 1:vlib.match_brace(blk, me.end() - 1)]
+    COUNT, PLAN = r"for\s+_\s+in\s+0\.\.step_count\s*\{", r"for\s+\(idx,\s*fxn\)\s+in\s+plan_brrw\.iter_mut\(\)\.enumerate\(\)\s*\{"
+    fors = vlib.find_all_code(els, r"\bfor\b[^{]*\{")
+    if len(fors) != 2:
+        raise AnchorLost("step(): expected a nest of two loops in the whole-plan branch, found %d" % len(fors))
+    kinds = []
+    for fm in fors:
+        t = els[fm.start():fm.end()]
+        kinds.append("count" if re.match(COUNT, t) else "plan" if re.match(PLAN, t) else None)
+    if None in kinds or sorted(kinds) != ["count", "plan"]:
+        raise AnchorLost("step(): loop headers of the whole-plan branch are not the step-count loop and the plan loop")
+    outer_end = vlib.match_brace(els, fors[0].end() - 1)
+    if not (fors[1].start() < outer_end):
+        raise AnchorLost("step(): the two loops are not nested")
+    inner = els[fors[1].end():vlib.match_brace(els, fors[1].end() - 1) - 1]
     solves = re.findall(r"\bfxn\.solve\(\);", re.sub(r"trace_println!\(.*?\}\);", "", inner, flags=re.S))
     if len(solves) != 1:
         raise AnchorLost("step(): the loop body calls fxn.solve() %d times (expected exactly once per plan function)" % len(solves))
+    order = kinds   # e.g. ["count", "plan"]
     text = """use vstd::prelude::*;
 verus! {
 // ghost log of the plan indices solved, in order
@@ -51,14 +70,29 @@ impl Plan {
 pub open spec fn one_pass(len: int) -> Seq<int> { Seq::new(len as nat, |i: int| i) }
 pub open spec fn passes(len: int, n: int) -> Seq<int> decreases n { if n <= 0 { Seq::<int>::empty() } else { passes(len, n - 1) + one_pass(len) } }
 
-// Interpreter::step, whole-plan branch (step_id == 0, not profiling): transcription of
-//   for _ in 0..step_count { for (idx, fxn) in plan_brrw.iter_mut().enumerate() { fxn.solve(); } }
+// Interpreter::step, whole-plan branch (step_id == 0, not profiling): transcription of the loop nest in the
+// order found in the source (%(desc)s), with `fxn.solve()` appending the plan index to a ghost log
 fn step_all(plan: &mut Plan, step_count: u64)
   ensures final(plan).len == old(plan).len, final(plan).log@ == old(plan).log@ + passes(old(plan).len as int, step_count as int),
 {
   let len = plan.len;
   let ghost start = plan.log@;
-  let mut k: u64 = 0;
+%(nest)s
+}
+
+// n single steps equal one request for n steps
+proof fn lemma_passes_add(len: int, a: int, b: int)
+  requires a >= 0, b >= 0,
+  ensures passes(len, a + b) =~= passes(len, a) + passes(len, b),
+  decreases b,
+{
+  if b > 0 { lemma_passes_add(len, a, b - 1); assert(passes(len, a + b) == passes(len, a + b - 1) + one_pass(len)); }
+}
+proof fn canary_c19(x: u64) ensures false { }
+} // verus!
+fn main() {}
+"""
+    NEST_OK = """  let mut k: u64 = 0;
   while k < step_count
     invariant k <= step_count, plan.len == len, plan.log@ == start + passes(len as int, k as int),
     decreases step_count - k,
@@ -79,21 +113,23 @@ fn step_all(plan: &mut Plan, step_count: u64)
       assert(start + passes(len as int, k as int) + one_pass(len as int) =~= start + (passes(len as int, k as int) + one_pass(len as int)));
     }
     k += 1;
-  }
-}
-
-// n single steps equal one request for n steps
-proof fn lemma_passes_add(len: int, a: int, b: int)
-  requires a >= 0, b >= 0,
-  ensures passes(len, a + b) =~= passes(len, a) + passes(len, b),
-  decreases b,
-{
-  if b > 0 { lemma_passes_add(len, a, b - 1); assert(passes(len, a + b) == passes(len, a + b - 1) + one_pass(len)); }
-}
-proof fn canary_c19(x: u64) ensures false { }
-} // verus!
-fn main() {}
-"""
+  }"""
+    NEST_SWAPPED = """  let mut idx: usize = 0;
+  while idx < len
+    invariant idx <= len, plan.len == len,
+    decreases len - idx,
+  {
+    let mut k: u64 = 0;
+    while k < step_count
+      invariant k <= step_count, plan.len == len, idx < len,
+      decreases step_count - k,
+    {
+      plan.solve(idx);
+      k += 1;
+    }
+    idx += 1;
+  }"""
+    text = text % dict(desc=" inside ".join(reversed(["the %s loop" % o for o in order])), nest=(NEST_OK if order == ["count", "plan"] else NEST_SWAPPED))
     fns = {"step_all": "C19.step.whole_plan_in_order", "lemma_passes_add": "C19.step.n_single_steps_equal_one_n_step"}
     u = VerusUnit("c19_step", text, fns, ["canary_c19"], dropped=[
         "Interpreter::step: only the non-profiling whole-plan branch; the anchor pass checks that the loop nest is `for _ in 0..step_count { for (idx, fxn) in plan_brrw.iter_mut().enumerate() { .. } }` and that its body calls fxn.solve() exactly once; the Verus unit is a transcription of that nest to index loops with `solve` appending its index to a ghost log (trace_println! dropped)"])
